@@ -273,6 +273,15 @@ LEDGER_STATEMENTS = [
 ]
 
 
+INVS_STATEMENTS = [
+    ('SELECT g, sum(inv) AS s, count(*) AS n FROM #invs GROUP BY g ORDER BY g', None),
+    ('SELECT sum(inv) AS s, first(inv) AS f, last(inv) AS l FROM #invs WHERE a ~ %s', ['Assets']),
+    ('SELECT g, units(sum(inv)) AS u, cost(sum(inv)) AS c FROM #invs GROUP BY g HAVING count(*) > %s ORDER BY g', [0]),
+    ('SELECT a, inv, units(inv) AS u FROM #invs WHERE NOT empty(inv) ORDER BY a', None),
+    ('SELECT g, sum(inv) AS s FROM (SELECT g, a, inv FROM #invs WHERE g != %(pat)s) GROUP BY g ORDER BY g', {'pat': 'Income'}),
+]
+
+
 def param_variants(rng, params):
     if params is None:
         return None
@@ -297,6 +306,15 @@ def run_history(ctx, rng, n):
     entries = led.entries
     before = digest_entries(entries)
     rows_before = copy.deepcopy(mt.rows)
+    # a table whose cells are inventory objects handed out by reference on every scan (mutable source data)
+    from beancount.core import inventory as _inv
+    try:
+        base = conn.execute('SELECT root(account, 1) AS g, account AS a, sum(position) AS inv FROM #postings GROUP BY 1, 2').fetchall()
+    except Exception:  # noqa: BLE001
+        base = []
+    invs = model.ModelTable('invs', [('g', str), ('a', str), ('inv', _inv.Inventory)], [tuple(r) for r in base])
+    invs_before = copy.deepcopy(invs.rows)
+    conn.tables['invs'] = engine.harness_table(invs)
     from beanquery import parser
     parsed = {}
     steps = []
@@ -304,7 +322,10 @@ def run_history(ctx, rng, n):
     length = rng.randint(3, 12)
     for s in range(length):
         r = rng.random()
-        if r < 0.5:
+        if r < 0.2:
+            text, params = rng.choice(INVS_STATEMENTS)
+            params = param_variants(rng, params)
+        elif r < 0.5:
             text, params = rng.choice(LEDGER_STATEMENTS)
             params = param_variants(rng, params)
         else:
@@ -319,6 +340,7 @@ def run_history(ctx, rng, n):
     executed = 0
     for step, (mode, text, params) in enumerate(steps):
         fresh_conn = engine.connection([model.ModelTable('t', mt.columns, rows_before)], ledger=ledgers.Ledger(led.text).loaded)
+        fresh_conn.tables['invs'] = engine.harness_table(model.ModelTable('invs', invs.columns, copy.deepcopy(invs_before)))
         if mode == 'parsed':
             # the same parsed statement object re-executed (with different parameters when it has any)
             if text not in parsed:
@@ -329,7 +351,7 @@ def run_history(ctx, rng, n):
             a = outcome(conn, parsed[text], params)
             variants = [params]
             if params is not None and rng.random() < 0.7:
-                variants.append(param_variants(rng, params) if text in [t for t, _ in LEDGER_STATEMENTS] else params)
+                variants.append(param_variants(rng, params) if text in [t for t, _ in LEDGER_STATEMENTS + INVS_STATEMENTS] else params)
             for p2 in variants[1:]:
                 a = outcome(conn, parsed[text], p2)
                 params = p2
@@ -337,7 +359,7 @@ def run_history(ctx, rng, n):
             b = outcome(fresh_conn, text, params)
         elif mode == 'many' and params is not None:
             cur = conn.cursor()
-            plist = [params] + [param_variants(rng, params) if text in [t for t, _ in LEDGER_STATEMENTS] else params for _ in range(rng.randint(1, 2))]
+            plist = [params] + [param_variants(rng, params) if text in [t for t, _ in LEDGER_STATEMENTS + INVS_STATEMENTS] else params for _ in range(rng.randint(1, 2))]
             try:
                 cur.executemany(text, plist)
                 desc = cur.description
@@ -375,6 +397,9 @@ def run_history(ctx, rng, n):
         ctx.violation('c09.source_mutated', 'ledger entries digest changed during the history', case)
     if mt.rows != rows_before:
         ctx.violation('c09.source_mutated', 'harness table rows changed during the history', case)
+    if invs.rows != invs_before:
+        k = next(i for i, (a, b) in enumerate(zip(invs.rows, invs_before)) if a != b)
+        ctx.violation('c09.source_mutated', f'the rows of the inventory table #invs changed during the history: row {k} is now {show(invs.rows[k])}, it was {show(invs_before[k])}', case)
     ctx.count('obs.digest_comparisons')
     for mech, p in problems:
         ctx.violation(mech, p, case)
